@@ -187,6 +187,17 @@ pub fn boundary_cfgs() -> Vec<Cfg> {
             v.push(Cfg { kind, p: vec![b, b, b], m: X(0.0) });
         }
     }
+    // neighbouring large periods in two arguments (smoothing factors closer than f64::EPSILON, equal from 2^53 on:
+    // two averages that "are the same" to a shortcut keep different parameters all the same)
+    for &b in &[95_000_000usize, 123_456_789, 1_000_000_000, (1 << 32) - 1, 1 << 32, 1 << 53, usize::MAX - 2] {
+        for kind in [Kind::Macd, Kind::Ppo] {
+            v.push(Cfg { kind, p: vec![b, b + 1, 9], m: X(0.0) });
+            v.push(Cfg { kind, p: vec![b + 1, b, 9], m: X(0.0) });
+            v.push(Cfg { kind, p: vec![12, b, b + 1], m: X(0.0) });
+            v.push(Cfg { kind, p: vec![b, 26, b + 1], m: X(0.0) });
+            v.push(Cfg { kind, p: vec![b, b + 1, b + 2], m: X(0.0) });
+        }
+    }
     v
 }
 
